@@ -81,6 +81,13 @@ func c02Alphabet(s *sessSys) []sessReq {
 			if s.in.cfg.UEIPAlloc {
 				p, f, q := rsChoose()
 				add("est-choose", sessReq{sReq: sReq{Kind: kEst, Conn: c, CPSEID: 1, CreatePDR: p, CreateFAR: f, CreateQER: q}})
+				if c == 0 {
+					pr := append([]sPDR{}, p...)
+					for i := range pr {
+						pr[i].Rev = true
+					}
+					add("est-choose-reversed-ies", sessReq{sReq: sReq{Kind: kEst, Conn: c, CPSEID: 1, CreatePDR: pr, CreateFAR: f, CreateQER: q}})
+				}
 			}
 			if c == 0 {
 				p, f, q := rsBasic("16.0.9.9", 0x999, "11.1.1.129")
